@@ -741,6 +741,36 @@ func runC14(c *Ctx) {
 			})
 		}
 		R.Ob("RRVS/same time layout on both sides", c.P.Pos(f.Pos()), cl != "" && cl == sl, fmt.Sprintf("client formats with %q, server parses with %q", cl, sl))
+		// ... and the layout keeps the instant to the second: date, time of day, and a numeric zone element
+		// (a literal 'Z' labels the caller's wall clock as UTC without converting it), unless the client
+		// converts to UTC first
+		lossless := true
+		missing := ""
+		for _, el := range []string{"2006", "01", "02", "15", "04", "05"} {
+			if !strings.Contains(cl, el) {
+				lossless = false
+				missing += " " + el
+			}
+		}
+		zone := false
+		for _, z := range []string{"Z07:00", "-07:00", "Z0700", "-0700", "Z07:00:00", "-07:00:00"} {
+			if strings.Contains(cl, z) {
+				zone = true
+			}
+		}
+		utcFirst := false
+		allInstrs(f, func(in ssa.Instruction) {
+			if isStaticCall(in, "(time.Time).Format") {
+				if strings.HasPrefix(describe(callCommon(in).Args[0]), "(time.Time).UTC(") {
+					utcFirst = true
+				}
+			}
+		})
+		if !zone && !utcFirst {
+			lossless = false
+			missing += " numeric-zone"
+		}
+		R.Ob("RRVS/layout keeps the instant to the second", c.P.Pos(f.Pos()), lossless, fmt.Sprintf("layout %q lacks%s: a timestamp with a non-UTC location is shifted by its zone offset (or truncated) on the way to the backend", cl, missing))
 	}
 	if f := c.A.Func("(*Client).Mail"); f != nil {
 		for _, w := range builderWrites(f) {
